@@ -568,7 +568,12 @@ impl Storage {
             )
             .expect("batch put should be ok");
         let tx_hash = tx.calc_tx_hash();
-        let tx_index = u32::max_value();
+        // a transaction which filter_block has already indexed in this block keeps its real
+        // index: spending one of its outputs later deletes the live cell by that index
+        let tx_index = match self.get_transaction(&tx_hash) {
+            Some((number, index, _)) if number == block_number => index,
+            _ => u32::max_value(),
+        };
         let key = Key::TxHash(&tx_hash).into_vec();
         let value = Value::Transaction(block_number, tx_index as TxIndex, tx);
         batch.put_kv(key, value).expect("batch put should be ok");
